@@ -19,6 +19,9 @@ OWN = [
     ('own_sq_swap', "while true:\n    x, y = x + y**2, y - y**2 + 1\nend", ['x', 'y'], 1),
     ('own_prob_cycle', "while true:\n    c = Bernoulli(1/2)\n    if c == 1:\n        x, y = x + x*y, y - x*y\n    else:\n        x, y = x - 2*x*y, y + 2*x*y\n    end\nend", ['x', 'y'], 1),
     ('own_scaled', "z = 1\nwhile true:\n    z = -z\n    x = 3*x + y**2 + z\n    y = 3*y - y**2\nend", ['x', 'y'], 1),
+    # homogeneous coefficient 1 with an effective part that depends on n (a probabilistic counter): the particular solution is a genuine sum over n
+    ('own_k1_counter', "z = 0\nwhile true:\n    z = z + 1 {1/2} z\n    x = x + y**2 + z\n    y = y - y**2 + 2*z\nend", ['x', 'y'], 1),
+    ('own_k1_toggle', "t = 0\nwhile true:\n    t = 1 - t\n    x = x + y**2 + t\n    y = y - y**2 + 3*t\nend", ['x', 'y'], 1),
 ]
 
 
